@@ -280,7 +280,7 @@ TplNames == {
   "where_rhs", "where_rhs_q", "where_rhs_and", "where_lhs", "where_neq", "where_lt", "where_regex", "where_nregex", "where_regex_and",
   "where_signed", "where_signed_sp", "where_plus", "where_arith", "where_paren", "where_time", "where_quoted", "where_twice", "where_two",
   "group_time", "group_time_off", "group_tag", "group_tag2", "fill", "limit", "offset", "slimit", "soffset", "limit_two", "tz", "subquery",
-  "percentile", "quoted_name", "digit_name", "kw_name", "upper_name", "empty_name", "empty_name_limit",
+  "percentile", "quoted_name", "digit_name", "kw_name", "upper_name", "dollar_name", "dollar_wrong", "empty_name", "empty_name_limit",
   "show_key_eq", "show_key_in", "show_key_in2", "show_key_re", "show_key_where", "show_meas_on", "show_meas_eq", "show_meas_re",
   "show_meas_where", "show_tagkeys", "show_series", "show_fieldkeys", "show_stats", "show_rps", "show_grants",
   "crp_name", "crp_db", "crp_dur", "crp_repl", "crp_shard", "crp_two", "arp_dur", "arp_repl", "cdb_name", "cdb_with", "cdb_with_name",
@@ -340,6 +340,8 @@ TplToks(n) ==
     [] n = "digit_name"     -> SelW \o <<P("="), Oq("1")>>
     [] n = "kw_name"        -> SelW \o <<P("="), Oq("select")>>
     [] n = "upper_name"     -> SelW \o <<P("="), Oq("P")>>
+    [] n = "dollar_name"    -> SelW \o <<P("="), Oq("\"$p\"")>>        \* the parameter is called `$p`
+    [] n = "dollar_wrong"   -> SelW \o <<P("="), Oq("\"$p\"")>>        \* ... and only `p` is bound
     [] n = "empty_name"     -> SelW \o <<P("="), Oq("")>>
     [] n = "empty_name_limit" -> Sel \o <<Kw("LIMIT"), Bq("")>>
     [] n = "show_key_eq"    -> <<Kw("SHOW"), Kw("TAG"), Kw("VALUES"), Kw("WITH"), Kw("KEY"), P("="), Bq("p")>>
@@ -393,5 +395,5 @@ TplSemantic(n) == n = "tz"
 \* the placeholder has no name: every parse must fail
 TplEmptyName(n) == n \in {"empty_name", "empty_name_limit"}
 \* `$P` is not `$p`: with only p bound the parse must fail
-TplWrongName(n) == n = "upper_name"
+TplWrongName(n) == n \in {"upper_name", "dollar_wrong"}
 =============================================================================
